@@ -231,9 +231,9 @@ func execOnce(script []string, opt comp.Options) comp.Result {
 }
 
 func genOnce(rng *rand.Rand, tier string) []string {
-	steps, maxC := 10+rng.Intn(16), 6
+	steps, maxC := 10+rng.Intn(16), 5
 	if tier == "thorough" {
-		steps, maxC = 15+rng.Intn(40), 10
+		steps, maxC = 15+rng.Intn(30), 7
 	}
 	var out []string
 	nc, ng := 0, 0
@@ -255,6 +255,9 @@ func genOnce(rng *rand.Rand, tier string) []string {
 		case r < 32 && nc < maxC:
 			out = append(out, "resolve")
 			nc++
+			if rng.Intn(5) < 3 {
+				out = append(out, "settle")
+			}
 		case r < 46 && nc > 0:
 			out = append(out, fmt.Sprintf("cancel %d", rng.Intn(nc)))
 		case r < 66:
@@ -395,9 +398,9 @@ func execMemo(script []string, opt comp.Options) comp.Result {
 }
 
 func genMemo(rng *rand.Rand, tier string) []string {
-	steps := 6 + rng.Intn(10)
+	steps, maxC, nc := 6+rng.Intn(10), 5, 0
 	if tier == "thorough" {
-		steps = 8 + rng.Intn(24)
+		steps, maxC = 8+rng.Intn(24), 7
 	}
 	var out []string
 	if rng.Intn(3) == 0 {
@@ -409,8 +412,12 @@ func genMemo(rng *rand.Rand, tier string) []string {
 	for i := 0; i < steps; i++ {
 		r := rng.Intn(100)
 		switch {
-		case r < 50:
+		case r < 50 && nc < maxC:
 			out = append(out, "call")
+			nc++
+			if rng.Intn(5) < 3 {
+				out = append(out, "settle")
+			}
 		case r < 62:
 			out = append(out, fmt.Sprintf("out %d %d", 1+rng.Intn(9), rng.Intn(2)))
 		case r < 70:
@@ -439,8 +446,8 @@ func init() {
 			{"resolve", "settle", "resolve", "settle", "cancel 0", "settle", "out ok", "quiesce", "resolve", "quiesce"},
 			// the function itself returns context.Canceled: live callers call it again
 			{"resolve", "resolve", "settle", "out errc", "quiesce", "out err", "quiesce", "resolve", "settle", "out ok", "quiesce"},
-			// ten callers, success (the shape of the existing unit test), then late callers, cancelled late caller
-			{"resolve", "resolve", "resolve", "resolve", "resolve", "resolve", "resolve", "resolve", "resolve", "resolve", "settle", "out ok", "quiesce", "resolve", "resolve", "cancel 11", "quiesce"},
+			// six callers, success (the shape of the existing unit test), then late callers, cancelled late caller
+			{"resolve", "settle", "resolve", "resolve", "settle", "resolve", "resolve", "settle", "resolve", "settle", "out ok", "quiesce", "resolve", "resolve", "cancel 7", "quiesce"},
 			// failure, retry, failure, retry; a caller that arrives between publication and its own wake-up
 			{"resolve", "settle", "out err", "settle", "resolve", "settle", "out err", "settle", "resolve", "resolve", "settle", "out ok", "quiesce"},
 			// already-cancelled context
